@@ -13,7 +13,7 @@ CONTENTS = ["alpha", "bravo", "ALPHA", "", "charlie-long-content"]
 
 
 # ordinary data files whose names other tools treat specially (filecmp's default ignore list, core dumps)
-ODD_NAMES = ["tags", "__pycache__", "core"]
+ODD_NAMES = ["tags", "__pycache__", "core", "c.json"]
 
 
 def rand_files(rng, nested=True):
@@ -28,6 +28,8 @@ def rand_files(rng, nested=True):
             files[f"{SUB}/{fn}"] = [rng.choice(CONTENTS), T0 + rng.choice([0, 100])]
         if rng.random() < 0.3:
             files[f"{SUB}/deep/z.txt"] = [rng.choice(CONTENTS), T0]
+            if rng.random() < 0.5:  # a second file two levels down: one side may lack only this one
+                files[f"{SUB}/deep/w.txt"] = [rng.choice(CONTENTS), T0 + rng.choice([0, 100])]
     return files
 
 
